@@ -461,6 +461,15 @@ class SSHConfig:
                 if args:
                     self._error(f'Extra data at end: {" ".join(args)}')
 
+    def _expand_options(self) -> None:
+        """Expand percent tokens and environment references
+
+           This is done once, after all config files (including
+           included files) have been read, so that the tokens take
+           their final values and no value is expanded twice.
+
+        """
+
         self._set_tokens()
 
         for option in self._percent_expand:
@@ -498,6 +507,7 @@ class SSHConfig:
             for path in paths:
                 config.parse(Path(path))
 
+            config._expand_options()
             config.loaded = True
 
         return config
